@@ -116,6 +116,15 @@ def make_content(r):
             parts.append((0x40, b'\x7f\x10\xda\xbe'))
         if mbr == 'mbr':
             parts.append((446, B.mbr([B.PTE_LINUX]).data[446:512]))
+        elif mbr == 'mbr-lba0':          # isohybrid style: a partition that starts at LBA 0
+            parts.append((446, B.mbr([dict(B.PTE_LINUX, ostype=0x17, lba=0, boot=0x80)]).data[446:512]))
+        elif mbr == 'gpt-protective':
+            parts.append((446, B.mbr([B.PTE_GPT]).data[446:512]))
+        elif mbr == 'fat+table':         # FAT boot sector look-alike that also carries a partition entry
+            parts.append((446, B.mbr([B.PTE_LINUX]).data[446:512]))
+            parts.append((0x10, b'\x02'))
+            parts.append((0x15, b'\xf8'))
+            parts.append((462, B.mbr([B.PTE_NTFS]).data[446:462]))
         elif mbr == 'fat':
             parts.append((446, B.mbr([B.PTE_LINUX]).data[446:512]))
             parts.append((0x10, b'\x02'))
@@ -138,7 +147,7 @@ def recipes(ctx):
     n = 0
     for off0 in OFF0:
         for vdi in (0, 1):
-            for mbr in (None, 'mbr', 'fat'):
+            for mbr in (None, 'mbr', 'fat', 'mbr-lba0', 'gpt-protective', 'fat+table'):
                 for iso in (0, 1):
                     n += 1
                     out.append(('overlay', off0, vdi, mbr, iso, 'zeros', BIG))
@@ -198,6 +207,10 @@ def recipes(ctx):
             extra.append(m.data)
             if ctx.thorough:
                 extra.append(F.overlay(m.data, (446, B.mbr([B.PTE_LINUX]).data[446:512])))
+    # VHDX images complete up to the size item, whose declared length is not 8
+    for il in (0, 4, 16, 65536):
+        extra.append(B.vhdx(item_length=il, tail=4096).data)
+    extra.append(B.gpt_disk().data)
     seen = set()
     for i, d in enumerate(extra):
         if d in seen:
